@@ -132,6 +132,8 @@ fn boundary_structure(rng: &mut Rng, which: usize, side: usize) -> (PDB, String)
             let (nm, cm) = match side {
                 1 => ("ABCD".to_string(), "x".repeat(41)),
                 3 => ("ABC".to_string(), "x".repeat(42)),
+                // both at once: one diagnostic for each
+                0 => ("ABCD".to_string(), "x".repeat(48)),
                 _ => ("ABC".to_string(), "x".repeat(41)),
             };
             let k_conformers = rng.below(p.conformers().count().max(1));
